@@ -98,11 +98,7 @@ func VerifC06_Rekey() {
 	if sym.Tier() == "thorough" {
 		L = 3
 	}
-	actors := 2
-	if sym.Tier() == "thorough" {
-		actors = 3
-	}
-	c06Run(L, true, actors)
+	c06Run(L, true, 2)
 }
 
 func c06Run(L int, rekeyFocus bool, actors int) {
